@@ -72,8 +72,16 @@ class Holes(ast.NodeTransformer):
         return node
 
 
-def shape(fn):
+def shape(fn, opaque_tail=False):
     fn = ast.parse(ast.unparse(fn)).body[0]      # fresh copy
+    if opaque_tail:
+        # do_CSSUnknownRule: the model takes the Out-formatted text of the rule as an opaque string; what it
+        # transcribes is the guard (wellformed and keepUnknownAtRules), the formatUnknownAtRules switch with the
+        # unformatted concatenation, and the else branch.  The formatting loop after it is not part of the shape.
+        ifs = [n for n in fn.body if isinstance(n, ast.If)]
+        if len(ifs) != 1 or not ifs[0].body or not isinstance(ifs[0].body[0], ast.If):
+            raise Refused("%s: expected `if <guard>: if not <format>: ... ; <formatting>` else ..." % fn.name)
+        ifs[0].body = ifs[0].body[:1]
     if fn.body and isinstance(fn.body[0], ast.Expr) and isinstance(fn.body[0].value, ast.Constant):
         fn.body = fn.body[1:]                        # docstring
     h = Holes()
@@ -94,7 +102,7 @@ PINNED = {
     ("CSSSerializer", "do_CSSStyleSheet"): "e9a06a8e9fbbe3ce",
     ("CSSSerializer", "do_CSSComment"): "e51caa764d107b70",
     ("CSSSerializer", "do_CSSMediaRule"): "0ef2be1ede8f31c9",
-    ("CSSSerializer", "do_CSSUnknownRule"): "4f98067c1520c285",
+    ("CSSSerializer", "do_CSSUnknownRule"): "afc9dc8bc7188a66",
     ("CSSSerializer", "do_CSSStyleRule"): "dac4eec6f0a623e1",
     ("CSSSerializer", "do_css_CSSStyleDeclaration"): "7943aa506d634aa6",
     ("CSSSerializer", "do_Property"): "722a5d90cf13576f",
@@ -173,7 +181,7 @@ def main(print_hashes=False):
     got = {}
     lits = {}
     for path in PINNED:
-        h, ls = shape(find_func(tree, list(path)))
+        h, ls = shape(find_func(tree, list(path)), opaque_tail=(path[1] == "do_CSSUnknownRule"))
         got[path] = h
         lits[path] = ls
     if print_hashes:
